@@ -5,7 +5,7 @@
    constants regenerated into CssV.Gen.UrlQuote, following 57a5489 and 3f41842) on top of C03's
    CssV.Gen.Quote (helper.string / stringvalue / _stringtokenvalue, regenerated, following 546430b),
    CssV.Tokenizer (the shared tokenizer model, with the regenerated URI production).          *)
-From CssV Require Import Base Regex Tokenizer Urls UrlsFacts Quote Gen.Quote QuoteFacts Gen.UrlQuote UrlQuote UrlQuoteFacts.
+From CssV Require Import Base Regex Tokenizer Urls UrlsFacts Quote Gen.Quote QuoteFacts QuoteStrFacts Gen.UrlQuote UrlQuote UrlQuoteFacts.
 
 (* "getUrls yields every URL that occurs in a sheet - the href of each @import first, then each
    url() value of any declaration in style, @font-face, @page and margin rules at any nesting
@@ -81,10 +81,11 @@ Print Assumptions getUrls_pinned_refuted_nested.
 (* "Any URL string (spaces, quotes, parentheses, commas, semicolons, non-ASCII; no backslash or
    newline) ... is serialised so that re-parsing returns the identical string."
    Proved for MORE than the property's set: every value helper.string can represent
-   (CssV.QuoteFacts.representable -- any code points, backslashes and \n \r \f included; the only
-   values excluded are those where a backslash run of odd length stands directly before a double
-   quote, or a backslash stands directly before \n, \r or \f: C03's open finding about
-   helper.string / stringvalue, see bs_value_not_representable there).
+   (CssV.QuoteStrFacts.representable_str -- any code points, backslashes and \n \r \f included; the
+   only values excluded are those where a backslash run of odd length stands directly before a double
+   quote: C03's open finding about helper.string / stringvalue, bs_value_not_representable there).
+   Inside url("...") the tokenizer does not apply cleanstring, so helper.uri writes
+   string(value, False) = Gen.Quote.hstring_uri and a backslash before a newline needs no exclusion.
    survives v: for every text following helper.uri(v), in both tokenizer modes, the first token is
    the URI token at 1:1 whose raw text is helper.uri(v), and helper.urivalue (declaration values,
    via PreDef.uri) and _uritokenvalue (@import) both return v from its value.                  *)
@@ -92,11 +93,11 @@ Theorem uri_bare : forall v, forbidden v = false -> survives v.
 Proof. exact uri_bare_lemma. Qed.
 Print Assumptions uri_bare.
 
-Theorem uri_quoted : forall v, representable v -> forbidden v = true -> survives v.
+Theorem uri_quoted : forall v, representable_str v -> forbidden v = true -> survives v.
 Proof. exact uri_quoted_lemma. Qed.
 Print Assumptions uri_quoted.
 
-Theorem uri_roundtrip : forall v, representable v -> survives v.
+Theorem uri_roundtrip : forall v, representable_str v -> survives v.
 Proof. exact uri_roundtrip_lemma. Qed.
 Print Assumptions uri_roundtrip.
 
@@ -111,12 +112,12 @@ Proof. exact backslash_is_quoted. Qed.
 Print Assumptions backslash_forces_quotes.
 
 (* @import "...": helper.string followed by any text is read back as the STRING token whose
-   _stringtokenvalue is v (C03's theorem, on the same set) *)
-Theorem import_string_roundtrip : forall dc fs v follow, representable v ->
+   _stringtokenvalue is v (C03's theorem, on the same set; STRING path: hstring with line continuation) *)
+Theorem import_string_roundtrip : forall dc fs v follow, representable_str v ->
   exists t, first_token dc fs (hstring v ++ follow) = Some t /\
             ty t = s "STRING" /\ raw t = hstring v /\ line t = 1%nat /\ col t = 1%nat /\
             stringtokenvalue (Some t) = Ok (Some v).
-Proof. exact string_roundtrip_lemma. Qed.
+Proof. exact QuoteStrFacts.string_roundtrip_lemma. Qed.
 Print Assumptions import_string_roundtrip.
 
 (* non-vacuity: awkward URLs are in the sets and come out as expected; a control character, DEL
@@ -124,16 +125,17 @@ Print Assumptions import_string_roundtrip.
 Example urlchars_awkward : UrlChars (s "a b'(c),;" ++ [34%N; 233%N; 1%N; 127%N; 8232%N]).
 Proof. intros c Hc. repeat (destruct Hc as [<-|Hc]; [repeat split; discriminate|]). destruct Hc. Qed.
 Example representable_backslashes :
-  representable (s "c:\dir\5c" ++ [10%N]) /\ representable [92%N] /\ representable [92%N; 92%N; 34%N] /\
-  ~ representable [92%N; 34%N] /\ ~ representable [92%N; 10%N].
-Proof. unfold representable. vm_compute. repeat split; discriminate. Qed.
+  representable_str (s "c:\dir\5c" ++ [10%N]) /\ representable_str [92%N] /\ representable_str [92%N; 92%N; 34%N] /\
+  representable_str [92%N; 10%N] /\ ~ representable_str [92%N; 34%N].
+Proof. unfold representable_str. vm_compute. repeat split; discriminate. Qed.
 Example huri_examples :
   huri (s "a.png") = s "url(a.png)" /\
   huri (s "a b") = s "url(" ++ [34%N] ++ s "a b" ++ [34%N] ++ s ")" /\
   huri [1%N] = s "url(" ++ [34%N; 1%N; 34%N] ++ s ")" /\
   huri [97%N; 34%N] = s "url(" ++ [34%N; 97%N; 92%N; 34%N; 34%N] ++ s ")" /\
   huri [92%N] = s "url(" ++ [34%N; 92%N; 92%N; 34%N] ++ s ")" /\
-  huri (s "a\b") = s "url(" ++ [34%N] ++ s "a\5c b" ++ [34%N] ++ s ")".
+  huri (s "a\b") = s "url(" ++ [34%N] ++ s "a\5c b" ++ [34%N] ++ s ")" /\
+  huri [92%N; 10%N] = s "url(" ++ [34%N] ++ s "\\a " ++ [34%N] ++ s ")".
 Proof. vm_compute. repeat split. Qed.
 Example bare_control_char_is_no_uri :
   option_map (fun ts => map ty ts) (tokenize true false (s "url(" ++ [1%N] ++ s ")"))
